@@ -408,13 +408,63 @@ def skeleton(repo: pathlib.Path) -> Skeleton:
     return sk
 
 
+def pickle_hooks(repo: pathlib.Path) -> List[Dict[str, Any]]:
+    """Shape of __getstate__/__setstate__ of every class of intermediate/_types.py that defines them."""
+    mod = _parse(repo, "aas_core_codegen/intermediate/_types.py")
+    hooks = []
+    for cls in mod.body:
+        if not isinstance(cls, ast.ClassDef):
+            continue
+        fns = {n.name: n for n in cls.body if isinstance(n, ast.FunctionDef)}
+        if "__getstate__" not in fns and "__setstate__" not in fns:
+            continue
+        if "__getstate__" not in fns or "__setstate__" not in fns:
+            raise ExtractError(f"class {cls.name} defines only one of __getstate__/__setstate__")
+        popped = []
+        for n in ast.walk(fns["__getstate__"]):
+            if isinstance(n, ast.Call) and isinstance(n.func, ast.Attribute) and n.func.attr == "pop":
+                if not (n.args and isinstance(n.args[0], ast.Constant) and isinstance(n.args[0].value, str)):
+                    raise ExtractError(f"{cls.name}.__getstate__: pop of a non-literal key")
+                popped.append((n.lineno, n.args[0].value))
+        popped = [x for _, x in sorted(popped)]
+        recomputed = []
+        for n in ast.walk(fns["__setstate__"]):
+            if isinstance(n, ast.Call) and isinstance(n.func, ast.Name) and n.func.id == "setattr":
+                if not (len(n.args) == 3 and isinstance(n.args[1], ast.Constant) and isinstance(n.args[2], ast.Call) and isinstance(n.args[2].func, ast.Attribute)):
+                    raise ExtractError(f"{cls.name}.__setstate__: setattr of an unknown shape at line {n.lineno}")
+                recomputed.append((n.lineno, (n.args[1].value, n.args[2].func.attr)))
+        recomputed = [x for _, x in sorted(recomputed)]
+        assigned, idsets = [], []
+        for name, fn in fns.items():
+            if name in ("__getstate__", "__setstate__"):
+                continue
+            for n in ast.walk(fn):
+                if isinstance(n, ast.Assign) and len(n.targets) == 1:
+                    t = n.targets[0]
+                    if isinstance(t, ast.Attribute) and isinstance(t.value, ast.Name) and t.value.id == "self":
+                        if t.attr.endswith("_id_set") and t.attr not in idsets:
+                            idsets.append(t.attr)
+                        v = n.value
+                        if isinstance(v, ast.Call) and isinstance(v.func, ast.Attribute) and v.func.attr.startswith("_compute_"):
+                            if (t.attr, v.func.attr) not in assigned:
+                                assigned.append((t.attr, v.func.attr))
+        hooks.append({"cls": cls.name, "popped": popped, "recomputed": recomputed, "assigned": assigned, "idSetFields": idsets})
+    if not hooks:
+        raise ExtractError("no class of intermediate/_types.py defines __getstate__")
+    return hooks
+
+
 def gen_Cache(repo: pathlib.Path) -> str:
+    from harness.extract import lean_text
+
     sk = skeleton(repo)
     ft = flag_table(repo)
+    hooks = pickle_hooks(repo)
     b = lambda x: "true" if x else "false"  # noqa: E731
     lines = [
         "import AasVerif.Model.Cache",
         "import AasVerif.Model.CacheFlag",
+        "import AasVerif.Model.CachePickle",
         "/-! GENERATED by harness/cache_gen.py from aas_core_codegen/run.py and aas_core_codegen/main.py — do not edit. -/",
         "namespace AasVerif.Gen.Cache",
         "open AasVerif.Cache",
@@ -435,9 +485,18 @@ def gen_Cache(repo: pathlib.Path) -> str:
         f"def tmpNameHasUuid4 : Bool := {b(sk.tmp_has_uuid4)}",
         "/-- the cache directory name contains the package version -/",
         f"def dirHasVersion : Bool := {b(sk.dir_has_version)}",
-        "end AasVerif.Gen.Cache",
-        "",
     ]
+    pair = lambda a: f"({lean_text(a[0])}, {lean_text(a[1])})"  # noqa: E731
+    lines += ["", "/-- __getstate__/__setstate__ of intermediate/_types.py (names as code points) -/", "def pickleHooks : List AasVerif.CachePickle.PickleHook := ["]
+    lines.append(
+        ",\n".join(
+            f"  -- {h['cls']}: popped {h['popped']}\n"
+            f"  ⟨{lean_text(h['cls'])},\n   [{', '.join(lean_text(x) for x in h['popped'])}],\n   [{', '.join(pair(x) for x in h['recomputed'])}],\n"
+            f"   [{', '.join(pair(x) for x in h['assigned'])}],\n   [{', '.join(lean_text(x) for x in h['idSetFields'])}]⟩"
+            for h in hooks
+        )
+    )
+    lines += ["]", "end AasVerif.Gen.Cache", ""]
     return "\n".join(lines)
 
 
